@@ -179,6 +179,17 @@ def extract_guard(store_py: Path) -> Guard:
                     if any(isinstance(x, ast.Attribute) and x.attr == OWNER_ATTR for x in tg):
                         raise Untranslatable(f'line {m.lineno}: {n.name} writes {OWNER_ATTR}; '
                                              'the model has a single writer (the constructor guard)')
+    # every way of getting a store object goes through __init__ (and so through the guard): nothing in the module
+    # builds instances with __new__, and the three public factories call the class
+    for n in ast.walk(mod):
+        if (isinstance(n, ast.Attribute) and n.attr == '__new__') or \
+                (isinstance(n, ast.FunctionDef) and n.name == '__new__'):
+            raise Untranslatable(f'line {n.lineno}: __new__ is used; store objects could be made without the guard')
+    for fname in ('create', 'open', 'append'):
+        fac = next((n for n in cls.body if isinstance(n, ast.FunctionDef) and n.name == fname), None)
+        if fac is None or not any(isinstance(c, ast.Call) and isinstance(c.func, ast.Name) and c.func.id == 'cls'
+                                  for c in ast.walk(fac)):
+            raise Untranslatable(f'TrajectoryStore.{fname} does not construct the store by calling cls(...)')
     tr = _Tr(lock_attrs)
     term = tr.block(guard)
     if len(tr.identities) != 1:
